@@ -19,7 +19,7 @@ ASSUMPTIONS = [
     "lossy (linear) sources follow the library's documented generator convention (C01)",
     "tolerance (1e-9 + 256 kappa 2^-53)*scale",
 ]
-N_CIRC = {'quick': 3200, 'thorough': 60000}
+N_CIRC = {'quick': 6400, 'thorough': 60000}
 W_RES = 1e-3
 
 
